@@ -217,6 +217,14 @@ def replay(pid, path):
         print('rc', rc, 'stats', stats)
         for p in problems[:20]:
             print(p)
+    elif 'request' in rp:
+        # a request of one of the function-level suites attached to this property (checks/slices.py)
+        unit = vlib.build_harness('unit', 'asan', exclude=['util/crc32c.c'])
+        print('C    :', vlib.serve(unit, [rp['request']], vlib.asan_env())[0])
+        print('model:', vlib.serve(os.path.join(vlib.LEAN, '.lake', 'build', 'bin', 'modeld'), [rp['request']], None)[0])
+    elif 'forge' in rp:
+        fbin = vlib.build_harness('forge', 'asan', exclude=[])
+        print(vlib.serve(fbin, [rp['forge']], vlib.asan_env())[0])
     else:
         print(json.dumps(rp, indent=1)[:3000])
     return 0
